@@ -678,6 +678,13 @@ struct C17 {
                 unsigned w = (unsigned) r.below(10);
                 if (w < 3) { op.count = r.below(70); op.size = r.below(600); }
                 else if (w < 5) { op.count = r.pick<uint64_t>({0, 1}); op.size = r.chance(1, 2) ? gen_size(r, P) : SIZE_MAX - r.below(3); }
+                else if (w == 5) {
+                    // both factors just above powers of two whose product is 2^64 or more: the true product is astronomically
+                    // large, its low 64 bits (and the factors' wrapped sum) are small
+                    unsigned k = (unsigned) r.pick<unsigned>({63, 63, 32, 48, 33, 62});
+                    unsigned k2 = k == 63 ? (unsigned) r.pick<unsigned>({63, 1, 2}) : 64 - k + (unsigned) r.below(2);
+                    op.count = ((uint64_t) 1 << k) + r.below(3); op.size = ((uint64_t) 1 << k2) + r.below(3);
+                }
                 else {
                     // around count*size == 2^64
                     uint64_t cnt = r.chance(1, 2) ? ((uint64_t) 1 << r.range(1, 63)) : r.range(2, 1u << 20) | ((uint64_t) r.below(1u << 16) << r.range(20, 47));
